@@ -170,8 +170,8 @@ META["C15"] = dict(
     assumptions=["distinct x; LOESS windows hold at least degree+3 points", "coefficient tolerance 256(n+p+2)*kappa*eps*scale"],
 )
 
-INTERVAL_PROOFS = []   # ["MV.Proofs.Interval"] once the soundness proofs match the fixed-point kernel again
-for _p in ["C03", "C09", "C11", "C14", "C16", "C17"]:
+INTERVAL_PROOFS = ["MV.Proofs.Interval"]   # soundness of every MV.I enclosure over the reals
+for _p in ["C03", "C04", "C05", "C08", "C09", "C11", "C12", "C14", "C16", "C17"]:
     META[_p]["extra_modules"] = INTERVAL_PROOFS
 
 META["C12"] = dict(
@@ -182,7 +182,6 @@ META["C12"] = dict(
     exhaustive_part="",
     trusted_base=COMMON_TB + ["MV.I interval enclosures (exp, sqrt, pi, Phi), proved sound in MV/Proofs/Interval.lean"],
     assumptions=["data inside the boundaries; positive weights; positive bandwidth (or 0 on unweighted samples with non-zero spread)"],
-    extra_modules=[],
 )
 
 META["C04"] = dict(
@@ -193,4 +192,23 @@ META["C04"] = dict(
     exhaustive_part="",
     trusted_base=COMMON_TB + ["closed-form Student-t CDF at integer DoF (MV.Special.tCDF) as P reference"],
     assumptions=["|x|<=1e6, relative spread >= 1e-6 (cases whose forward-error factor exceeds 1e-6 are skipped and counted)"],
+)
+
+META["C05"] = dict(
+    level_text="Theorems (Lean): the interval enclosures of the normal density and CDF are sound for every rational argument (MV.Proofs.Interval: phi_sound, Phi_sound, where Phi is defined as the Gaussian integral), so every NormalDist PDF/CDF value and every InvCDF round trip is decided against a certified reference (relative 1e-9 down to p=1e-300 through the enveloping tail series); DeltaDist is exact. Student t: PDF and CDF against closed forms at integer V (1..400), and the laws (range, monotone, symmetry, limits, non-negative density) for every real V in [0.1,1e4] evaluated on the code's outputs.",
+    level_note="Partial: absolute accuracy of TDist.CDF/PDF at non-integer V is not decided (no certified reference yet); the closed forms at integer V are textbook and numerically cross-checked, not formalised. ",
+    technique="Lean 4 certified interval reference (normal) + closed-form reference (t at integer V) + laws on outputs",
+    rule="nd mu sigma pdf|cdf|inv|misc x: mu in +-{0,1,100,1e6}, sigma log-uniform 1e-6..1e6 (standard normal 1/4), z up to +-40 incl. 0, +-7, 37; p in (0,1): uniform, 10^-U(0,300), 1-10^-U(0,15), the branch points 0.02425, ends and outside; td V grid xs: V integer 1..40, {1,2,3,100,170,171,300,342,343,344,399,400}, or log-uniform real in [0.1,1e4], symmetric ascending grids with |x| from 1e-7 to 40; dd T pdf|cdf|inv x around the atom. non-trivial = every case",
+    exhaustive_part="",
+    trusted_base=COMMON_TB + ["MV.I enclosures of exp/sqrt/pi/Phi (soundness in MV/Proofs/Interval.lean)", "closed-form Student-t PDF/CDF at integer V (MV.Special)"],
+    assumptions=["Sigma>0; 0.1<=V<=1e4"],
+)
+META["C08"] = dict(
+    level_text="Theorems (Lean): chooseFast = Nat.choose; the integer-parameter incomplete beta model is a polynomial in x with value 0 at 0 and 1 at 1; symmetry and complement identities on the slices. Correspondence: BetaInc against exact rational values at integer (a,b) and against the t-distribution closed form at (k/2,1/2) and (1/2,k/2); GammaInc/GammaIncComp against enclosures at integer and half-integer a; Choose (exact for n<=20, 1e-10 relative to 1000), Lchoose, Beta at integers, Sign; and for real parameters across the whole stated range the laws evaluated on the code's outputs: range, monotone in x on ascending dyadic grids, complement identity I_x(a,b)+I_(1-x)(b,a)=1 (1-x exact), 0/1 at the ends, NaN outside, P+Q=1; panics and non-convergence are failures.",
+    level_note="Partial: 1e-9 accuracy of BetaInc/GammaInc at non-integer, non-half-integer parameters is not decided by a certified reference (laws only). Closed forms on the slices are textbook identities, numerically cross-checked, not formalised.",
+    technique="Lean 4 exact/closed-form references on rational slices + identities evaluated on outputs",
+    rule="mx betagrid a b xs (a,b log-uniform in [0.05,300]; integers to 300; (k/2,1/2) slices; corners; x dyadic, ascending, incl. 0, 1, the mean a/(a+b), the branch switch (a+1)/(a+b+2) and its neighbours, 10^-U(0,12), 1-10^-U(0,12)); mx gammagrid a xs (a real / integer / half-integer; x at 0, a, a+1 and neighbours, lognormal around a, tiny, 1000; NaN cases); mx choose n k (all n<=70 quick / n<=1000 thorough with sampling above 60, out-of-range k); mx beta a b; mx sign x. non-trivial = every case",
+    exhaustive_part="Choose/Lchoose: all (n,k) with n<=70 (thorough: n<=60 all, 1/4 sample to 1000)",
+    trusted_base=COMMON_TB + ["MV.I enclosures; closed forms MV.Special.{betaIncInt,betaIncHalf,gammaIncInt,gammaIncHalf}"],
+    assumptions=["0<=x<=1, 0.05<=a,b<=300 (BetaInc); 0.05<=a<=300, x>=0 (GammaInc)"],
 )
